@@ -16,6 +16,7 @@ var quickKinds = []string{"A", "Em", "Es", "Est", "Eo", "Eot", "W", "S", "WT"}
 var thoroughKinds = []string{"A", "AR", "Em", "Es", "Est", "Eo", "Eot", "W", "S", "WT", "R"}
 
 var voiceKinds = []string{"A", "D", "W", "Es", "Eo"}
+var pushFailKinds = []string{"A", "W", "Es", "Eo", "EsEm", "EoEm"}
 
 var triggers = []string{"manual", "msg", "flow_action"}
 
@@ -58,6 +59,22 @@ func Roots(tier string) []world.Root {
 		}
 		if hasWait && hasEnter {
 			roots = append(roots, world.Root{Flows: &sets[i], Trigger: "manual", Opt: world.Options{MaxSteps: LooseLimit, MaxResumes: 3}})
+		}
+	}
+	// the push-then-fail family: a node that enters a flow and then fails its run in the same node
+	pushFail := world.EnumFlowSets(pushFailKinds, 2, 1)
+	for i := range pushFail {
+		uses := false
+		for _, fl := range pushFail[i].Flows {
+			for _, n := range fl.Nodes {
+				uses = uses || n.Kind == "EsEm" || n.Kind == "EoEm"
+			}
+		}
+		if !uses {
+			continue // covered by the main family
+		}
+		for _, tr := range []string{"manual", "msg"} {
+			roots = append(roots, world.Root{Flows: &pushFail[i], Trigger: tr, Opt: world.Options{MaxSteps: LooseLimit}})
 		}
 	}
 	// the voice family: dial waits and dial resumes
